@@ -952,12 +952,12 @@ def move_imports_to_toplevel(source: str) -> str:
 
     for i, node in enumerate(root.body):
         if i > 0 and not isinstance(node, (ast.Import, ast.ImportFrom)):
-            lineno = min(x.lineno for x in core.walk(node, ast.AST(lineno=int))) - 1
+            lineno = max(1, min(x.lineno for x in core.walk(node, ast.AST(lineno=int))) - 1)
             break
         if i == 0 and not core.match_template(
             node, (ast.Import, ast.ImportFrom, ast.Expr(value=ast.Constant(value=str)))
         ):
-            lineno = min(x.lineno for x in core.walk(node, ast.AST(lineno=int))) - 1
+            lineno = max(1, min(x.lineno for x in core.walk(node, ast.AST(lineno=int))) - 1)
             break
     else:
         if root.body:
